@@ -674,11 +674,11 @@ class CallMixin:
         return getattr(self.specs, 'ghostfields', {})
 
     # ------------------------------------------------------------ goroutines
-    def record_fork(self, ctx, ins, st, tasks, multi):
+    def record_fork(self, ctx, ins, st, tasks, multi, kind='fork'):
         if self.mute or not tasks:
             return
         self.fork_groups.append({'tasks': tasks, 'multi': multi, 'state': st.copy(), 'nhyps': len(self.hyps), 'nescaped': len(self.escaped_closures),
-                                 'pos': ins.get('pos', '')})
+                                 'pos': ins.get('pos', ''), 'kind': kind})
 
     def in_loop(self, ctx):
         b = ctx.get('block')
@@ -687,7 +687,7 @@ class CallMixin:
     def on_go(self, ctx, ins, st, call, fv, args):
         self.spawned = True
         if isinstance(fv, ClosureV):
-            self.record_fork(ctx, ins, st, [fv], self.in_loop(ctx))
+            self.record_fork(ctx, ins, st, [fv], self.in_loop(ctx), kind='go')
             vol = set(st.volatile)
             for cid in self.closure_cells(fv, written_only=True):
                 vol.add(cid)
